@@ -234,6 +234,34 @@ def w_repo(arg):
                 elif not got and want and sobj == honest[snaps[target]['location']]:
                     out['violations'].append(('c04:silent-nothing', f'restore returned normally without writing anything although the snapshot object is intact, after {ops}',
                                               {'case': ci, 'ops': ops}))
+            # ---- the same damaged repository seen through a client WITH a local snapshot cache: a first restore, a retry, and a
+            # restore that finds a truncated cache entry (what an interrupted write leaves).  The cache is not a repository object,
+            # but whatever it holds a restore must never report success while writing different content.
+            if ci % 3 == 0 or any(o[0] in ('swap', 'replay') for o in ops):
+                want = {p: v for p, v in truth.items()}
+                for variant in ('retry', 'truncated-entry'):
+                    cdir = sc.dir()
+                    if variant == 'truncated-entry':
+                        sloc_t = snaps[target]['location']
+                        fp = os.path.join(str(cdir), sloc_t)
+                        os.makedirs(os.path.dirname(fp), exist_ok=True)
+                        with open(fp, 'wb') as fh:
+                            fh.write(honest[sloc_t][:len(honest[sloc_t]) // 2])
+                    for attempt in range(2 if variant == 'retry' else 1):
+                        repo_c = w.repo(0)
+                        repo_c._cache_directory = cdir
+                        tgt_c = sc.dir()
+                        try:
+                            R.restore(repo_c, tgt_c, snapshot_regex=snaps[target]['name'])
+                        except BaseException as e:  # noqa: BLE001
+                            if isinstance(e, (KeyboardInterrupt, SystemExit)):
+                                raise
+                            continue
+                        got_c = {'/' + os.fsdecode(k): v[0] for k, v in R.read_tree(tgt_c).items()}
+                        if got_c and got_c != want:
+                            out['violations'].append(('c04:silent-corruption:via-cache:' + variant,
+                                                      f'restore through a client with a snapshot cache ({variant}, attempt {attempt + 1}) returned normally but wrote different content after {ops}',
+                                                      {'case': ci, 'ops': ops, 'variant': variant}))
             touched = {o[1] for o in ops} | {o[2] for o in ops if o[0] in ('swap', 'replay')}
             out['cases'].append({'ops': ops, 'outcome': outcome, 'request': ab.request(objects, aliases, target),
                                  'nontrivial': bool(touched & (set(needed) | {snaps[target]['location']})), 'kinds': sorted({o[0] for o in ops})})
